@@ -233,7 +233,11 @@ def run_faults(b: Batch, state, recursive, errnos, ctx):
 
     n, log = count_calls(state, recursive)
     for k in range(n):
-        for en in errnos:
+        kind_k, path_k = log[k]
+        # a per-entry stat may fail in more ways than a listing (a link to itself: ELOOP, a dying disk: EIO, an over-long
+        # name): whatever the errno, that entry is treated as absent
+        ens = tuple(errnos) + ((errno.ELOOP, errno.EIO) if kind_k == "stat" and path_k != VFS().root and len(errnos) > 1 and k % 2 == 0 else ())
+        for en in ens:
             kind, path = log[k]
             b.case()
             rs = {"kind": "fault1", "state": sorted(state.items()), "recursive": recursive, "k": k, "errno": en, "lazy": VFS().lazy}
